@@ -126,7 +126,8 @@ func c08Run(r *tr.Run, hs []c08Handler, rng *rand.Rand) {
 	var published []*message.Message                         // fresh output objects that went through a publisher (they carry a handler context)
 	shared := message.NewMessage("shared", []byte("shared")) // one object returned by several handlers one after the other
 	shape := map[string]string{}
-	pre := map[string]string{} // messages that arrive settled
+	pre := map[string]string{}               // messages that arrive settled
+	chainDone := map[string]chan struct{}{} // ... for those the harness waits for the chain itself (their settlement says nothing about it)
 	consumed := map[string]*message.Message{}
 	returned := map[string][]*message.Message{}
 	snap := map[*message.Message]string{}
@@ -275,6 +276,12 @@ func c08Run(r *tr.Run, hs []c08Handler, rng *rand.Rand) {
 				end = "err"
 			}
 			r.Emit("hend", "m", m, "end", end, "outs", ids)
+			mu.Lock()
+			if ch := chainDone[m]; ch != nil {
+				close(ch)
+				delete(chainDone, m)
+			}
+			mu.Unlock()
 			return outs, err
 		}
 	})
@@ -353,6 +360,7 @@ func c08Run(r *tr.Run, hs []c08Handler, rng *rand.Rand) {
 					shape[m] = sh
 					if rng.Intn(6) == 0 && sh != "earlyack" {
 						pre[m] = []string{"ack", "nack"}[rng.Intn(2)]
+						chainDone[m] = make(chan struct{})
 					}
 					consumed[m] = message.NewMessage(prefix+m, []byte("in"))
 					{
@@ -411,6 +419,17 @@ func c08Run(r *tr.Run, hs []c08Handler, rng *rand.Rand) {
 	}
 	wg.Wait()
 	for _, e := range ems {
+		mu.Lock()
+		cd := chainDone[e.m]
+		mu.Unlock()
+		if pre[e.m] != "" && cd != nil {
+			// (settled before it was handed over: wait until its chain has run, and a moment more for the publish)
+			if !WaitOrHang(cd) {
+				r.Emit("hung", "what", "a message that arrived settled was never handled", "m", e.m)
+				return
+			}
+			time.Sleep(2 * time.Millisecond)
+		}
 		if !WaitOrHang(e.settled) {
 			r.Emit("hung", "what", "never settled", "m", e.m)
 			return
